@@ -301,25 +301,37 @@ impl Ctx {
         let mut lost = 0u64;
         let id = uid_encode(self.ids.get(&1).unwrap());
         for a in 0..attempts {
-            let (tx, mut rx) = self.inst.svc.mutation_stream();
             let (v, al) = (1000 + a, 2000 + a);
             let mut p1 = Parameters::default();
             p1.add("id", id.clone()).unwrap();
             let mut p2 = Parameters::default();
             p2.add("id", id.clone()).unwrap();
-            let _ = tx
-                .send((format!("mutate {{ Item {{ id:$id val:\"v{}\" }} }}", v), Some(p1)))
-                .await;
-            let _ = tx
-                .send((format!("mutate {{ Item {{ id:$id alt:\"a{}\" }} }}", al), Some(p2)))
-                .await;
+            let t1 = format!("mutate {{ Item {{ id:$id val:\"v{}\" }} }}", v);
+            let t2 = format!("mutate {{ Item {{ id:$id alt:\"a{}\" }} }}", al);
             let mut ok = 0;
-            for _ in 0..2 {
-                if let Ok(Some(Ok(_))) = tokio::time::timeout(std::time::Duration::from_secs(20), rx.recv()).await {
-                    ok += 1;
+            if a % 2 == 0 {
+                // pipelined on one mutation stream
+                let (tx, mut rx) = self.inst.svc.mutation_stream();
+                let _ = tx.send((t1, Some(p1))).await;
+                let _ = tx.send((t2, Some(p2))).await;
+                for _ in 0..2 {
+                    if let Ok(Some(Ok(_))) =
+                        tokio::time::timeout(std::time::Duration::from_secs(20), rx.recv()).await
+                    {
+                        ok += 1;
+                    }
                 }
+                drop(tx);
+            } else {
+                // two concurrent callers of the public `mutate`
+                let s1 = self.inst.svc.clone();
+                let s2 = self.inst.svc.clone();
+                let (r1, r2) = tokio::join!(
+                    tokio::spawn(async move { s1.mutate_raw(&t1, Some(p1)).await.is_ok() }),
+                    tokio::spawn(async move { s2.mutate_raw(&t2, Some(p2)).await.is_ok() })
+                );
+                ok += r1.unwrap_or(false) as i32 + r2.unwrap_or(false) as i32;
             }
-            drop(tx);
             let st = self.state().await;
             let row1 = st
                 .split_whitespace()
@@ -334,17 +346,17 @@ impl Ctx {
             let has_a = row1.contains(&format!("2={}", al));
             if ok == 2 && !(has_v && has_a) {
                 lost += 1;
-                stats.sample(serde_json::json!({"mutation_stream": "both acknowledged", "row_after": row1,
+                stats.sample(serde_json::json!({"public_api": if a % 2 == 0 { "mutation_stream, both acknowledged" } else { "two concurrent mutate callers, both acknowledged" }, "row_after": row1,
                     "expected": format!("1={};2={}", v, al)}));
             }
         }
-        stats.add("stream.attempts", attempts);
-        stats.add("stream.lost_updates", lost);
+        stats.add("public_api.pairs", attempts);
+        stats.add("public_api.lost_updates", lost);
         if lost > 0 {
             oracle.push((
                 "lost-update-whole-row-rewrite".into(),
                 format!(
-                    "public API: {} of {} pairs of acknowledged mutations of one row pushed through mutation_stream lost one of the two field assignments",
+                    "public API: {} of {} pairs of acknowledged mutations of one row (alternately pipelined on mutation_stream and issued by two concurrent mutate callers) lost one of the two field assignments",
                     lost, attempts
                 ),
             ));
@@ -629,7 +641,6 @@ pub fn enumerate(a: &Args) {
     // the window through the public API
     writeln!(w, "case id={} prop=c16", id).unwrap();
     writeln!(w, "stream n={}", if tier == "quick" { 10 } else { 100 }).unwrap();
-    writeln!(w, "state").unwrap();
     id += 1;
     w.flush().unwrap();
     println!("{}", serde_json::json!({"cases": id, "families": per_family}));
